@@ -32,12 +32,12 @@ enum { T_INT, T_BSTR, T_TSTR, T_IBS, T_DARR, T_IARR, T_DMAP, T_IMAP, T_TAG, T_IT
 static const char* TNAME[] = {"int", "bstr", "tstr", "ibs", "darr", "iarr", "dmap", "imap", "tag", "its"};
 enum {
   O_MK = 1, O_DECREF, O_IDECREF, O_INCREF, O_SER, O_COPY, O_LOADBACK, O_GET, O_GET_OOB, O_TAG_ITEM, O_BUILD_TAG, O_PUSH, O_MOVE_PUSH, O_PUSH_FULL,
-  O_SET, O_SET_OOB, O_REPLACE, O_REPLACE_OOB, O_ADD_CHUNK, O_TAG_SET, O_TAG_SET_OCC, O_MAP_ADD, O_MAP_ADD_FULL, O_MOVE_MAP_ADD, O_NOPS
+  O_SET, O_SET_OOB, O_REPLACE, O_REPLACE_OOB, O_ADD_CHUNK, O_TAG_SET, O_TAG_SET_OCC, O_MAP_ADD, O_MAP_ADD_FULL, O_MOVE_MAP_ADD, O_LOAD_REJ, O_NOPS
 };
 static const char* ONAME[] = {"", "mk", "decref", "intermediate_decref", "incref", "serialize", "copy", "load(serialize)", "array_get", "array_get(out of range)",
                               "tag_item", "build_tag", "array_push", "array_push(cbor_move(x))", "array_push(full)", "array_set", "array_set(out of range)",
                               "array_replace", "array_replace(out of range)", "string/bytestring_add_chunk", "tag_set_item", "tag_set_item(occupied)", "map_add",
-                              "map_add(full)", "map_add(cbor_move(k), v)"};
+                              "map_add(full)", "map_add(cbor_move(k), v)", "load(rejected variants of serialize)"};
 typedef struct { uint8_t op, a, b, c; } op_t; /* meaning of a,b,c depends on op */
 typedef struct { uint8_t n; op_t h[MAXH]; uint8_t pad[3]; } hist_t;
 
@@ -185,6 +185,11 @@ static int adopt(shadow* s, const shadow* src, int si, cbor_item_t* rp, const ch
   return id;
 }
 
+static int lowest_slot_of(const shadow* s, int item) {
+  for (int k = 0; k < K; k++)
+    if (s->slot[k] == item) return k;
+  return -1;
+}
 /* enumerate enabled operations of a state (a function of the shadow only) */
 static int enum_ops(const shadow* s, op_t* out) {
   int n = 0, e = -1, nl = nlive(s);
@@ -200,6 +205,7 @@ static int enum_ops(const shadow* s, op_t* out) {
     out[n++] = (op_t){O_DECREF, (uint8_t)a, 0, 0};
     out[n++] = (op_t){O_IDECREF, (uint8_t)a, 0, 0};
     if (complete(s, ia)) out[n++] = (op_t){O_SER, (uint8_t)a, 0, 0};
+    if (complete(s, ia) && a == lowest_slot_of(s, ia)) out[n++] = (op_t){O_LOAD_REJ, (uint8_t)a, 0, 0};
     if (e >= 0) {
       out[n++] = (op_t){O_INCREF, (uint8_t)a, (uint8_t)e, 0};
       if (complete(s, ia) && nl + tsize(s, ia) <= (int)MAXI) {
@@ -271,6 +277,37 @@ static void apply(shadow* s, op_t o) {
       unsigned char buf[512];
       size_t w = cbor_serialize(real[ia], buf, sizeof buf);
       if (w != sz || sz == 0) FAIL("serialize wrote %zu, size %zu", w, sz);
+      break;
+    }
+    case O_LOAD_REJ: {
+      /* failed decodes hand out no reference: whatever the decoder built on the way must be gone when it returns (the state is unchanged, so the
+       * audit after this transition sees any block left behind). Variants of the item's own encoding e: every proper prefix; e inside an
+       * indefinite map as a key with no value; e followed by a reserved byte inside an array; e as a "chunk" of both chunked string kinds; e
+       * with a break where none is allowed; e as the content of a tag followed by a break inside a definite array */
+      unsigned char e[512], v[520];
+      size_t w = cbor_serialize(real[ia], e, sizeof e);
+      if (!w) { FAIL("serialize returned 0"); break; }
+      struct cbor_load_result res;
+      uint64_t live0 = va.live;
+      for (size_t cut = 0; cut < w; cut++) {
+        cbor_item_t* p = cbor_load(e, cut, &res);
+        vf_cnt(VC_USER + 27, 1);
+        if (p) { FAIL("load of a proper prefix (%zu of %zu bytes) of the serialization returned an item", cut, w); cbor_decref(&p); }
+      }
+      static const struct { unsigned char pre[2]; unsigned npre; unsigned char post[2]; unsigned npost; } W[] = {
+          {{0xbf}, 1, {0xff}, 1}, {{0x9f}, 1, {0x1c}, 1}, {{0x5f}, 1, {0xff}, 1}, {{0x7f}, 1, {0xff}, 1}, {{0x82}, 1, {0xff}, 1}, {{0x82, 0xc1}, 2, {0xff}, 1},
+          {{0xa1}, 1, {0xff}, 1}, {{0xbf, 0x00}, 2, {0x1c}, 1}, {{0xd8, 0x18}, 2, {0xff}, 1}};
+      for (unsigned i = 0; i < sizeof W / sizeof W[0]; i++) {
+        size_t n = 0;
+        memcpy(v, W[i].pre, W[i].npre); n += W[i].npre;
+        memcpy(v + n, e, w); n += w;
+        memcpy(v + n, W[i].post, W[i].npost); n += W[i].npost;
+        cbor_item_t* p = cbor_load(v, n, &res);
+        vf_cnt(VC_USER + 27, 1);
+        if (p) cbor_decref(&p); /* a few of these are acceptable for some items (a definite string inside a chunked string of its kind): then it is a plain load + release */
+        if (va.live != live0) { FAIL("a rejected (or loaded and released) variant %u of the serialization left %" PRId64 " blocks allocated", i, (int64_t)(va.live - live0)); break; }
+      }
+      if (va.live != live0) FAIL("failed loads left %" PRId64 " blocks allocated", (int64_t)(va.live - live0));
       break;
     }
     case O_COPY:
@@ -418,8 +455,10 @@ int vf_trap_posix_memalign(void** p, size_t a, size_t n) { (void)p; (void)a; (vo
 static unsigned char* arena;
 static size_t arena_off, arena_live;
 #define ARENA_SZ (1u << 20)
+static int64_t ar_fail_at = -1; /* refuse the request with this index (counted from alloc_begin) */
 static void* ar_malloc(size_t n) {
   va.requests++;
+  if ((int64_t)va.requests - 1 == ar_fail_at) return NULL;
   size_t need = (n + 16 + 15) & ~(size_t)15;
   if (arena_off + need > ARENA_SZ) return NULL;
   uint64_t* h = (uint64_t*)(arena + arena_off);
@@ -616,7 +655,7 @@ static void participant(unsigned me) {
 }
 static unsigned configs = 1;
 #if PROP == 13
-enum { K13_PIPE = VC_USER + 30, K13_NOALLOC_TREES, K13_NOALLOC_CALLS, K13_BLOCKS_IN_ARENA };
+enum { K13_PIPE = VC_USER + 30, K13_NOALLOC_TREES, K13_NOALLOC_CALLS, K13_BLOCKS_IN_ARENA, K13_FAULT_RUNS };
 static FILE* devnull;
 static void pipe_input(const uint8_t* b, size_t n) {
   vf_case("pipeline", b, n);
@@ -654,6 +693,29 @@ static void pipe_input(const uint8_t* b, size_t n) {
   if (va.live) vf_fail(NULL, "%" PRIu64 " blocks not handed back to the installed free", va.live);
   if (va.errors) vf_fail(NULL, "allocator protocol violated: %s", va.last_error);
   if (trap_hits) vf_fail("libc-bypass", "%s", trap_what);
+  /* the same discipline on the library's failure paths: load + copy + release with each single request refused in turn (small inputs) */
+  if (n <= 48 && exec_status == EX_OK) {
+    alloc_begin();
+    cbor_item_t* t0 = cbor_load(b, n, &res);
+    cbor_item_t* c0 = t0 ? cbor_copy(t0) : NULL;
+    uint64_t total = va.requests; /* requests of the unrefused run */
+    if (c0) cbor_decref(&c0);
+    if (t0) cbor_decref(&t0);
+    for (uint64_t k = 0; k < total && k < 64; k++) {
+      alloc_begin();
+      if (alloc_config == 1) ar_fail_at = (int64_t)k; else va_schedule(VA_FAIL_ONE, k, 0);
+      cbor_item_t* t = cbor_load(b, n, &res);
+      cbor_item_t* c = t ? cbor_copy(t) : NULL;
+      if (c) cbor_decref(&c);
+      if (t) cbor_decref(&t);
+      ar_fail_at = -1;
+      if (alloc_config != 1) va_schedule(VA_NOFAULT, 0, 0);
+      vf_cnt(K13_FAULT_RUNS, 1);
+      if (va.live) { vf_fail(NULL, "with request %" PRIu64 " refused, %" PRIu64 " blocks were not handed back to the installed free", k, va.live); if (alloc_config != 1) va_release_all(); break; }
+      if (va.errors) { vf_fail(NULL, "with request %" PRIu64 " refused, the allocator protocol was violated: %s", k, va.last_error); break; }
+      if (trap_hits) { vf_fail("libc-bypass", "with request %" PRIu64 " refused: %s", k, trap_what); break; }
+    }
+  }
 }
 static void pipe_seq_cb(const vf_seq* s, void* ctx) {
   (void)ctx;
@@ -755,6 +817,8 @@ static void init(void) {
   const char* cfg = getenv("VF_ALLOC_CONFIG");
   alloc_config = cfg ? atoi(cfg) : 0;
   arena = mmap(NULL, ARENA_SZ, PROT_READ | PROT_WRITE, MAP_PRIVATE | MAP_ANONYMOUS, -1, 0);
+  vf_extra("pipelines", "every head sequence of the pushdown DFS over Sigma (<= 3 heads; thorough 4) and every boundary-corpus item: load, describe, serialize, serialize_alloc, copy, release under the "
+           "configured allocator; for inputs of <= 48 bytes additionally load + copy + release with each single allocator request refused in turn (the library's failure paths obey the same discipline)");
   vf_extra("allocator_configuration", "%s", alloc_config == 1 ? "arena without libc backing (every block address must lie inside it)" : "tagging allocator; libc malloc/calloc/realloc/free/strdup references of every library object except allocators.o redirected to trap symbols");
 #endif
 #if PROP == 13
@@ -837,7 +901,7 @@ struct vf_check vf_the_check = {
 #endif
     .level = "model_checking",
     .rule = "level-synchronous BFS over all histories of public-API calls of a rule-following client with 3 reference slots: create {int, definite byte/text string, indefinite "
-            "byte / text string, definite array(2), indefinite array, definite map(1), indefinite map, tag}, decref, intermediate_decref, incref, serialize, copy, load(serialize), "
+            "byte / text string, definite array(2), indefinite array, definite map(1), indefinite map, tag}, decref, intermediate_decref, incref, serialize, copy, load(serialize), load of rejected variants of the serialization (every proper prefix and 9 malformed wrappings; no reference is handed out, nothing may stay allocated), "
             "array get (in and out of range), push / push(cbor_move) / push on full, set / replace (in and out of range), add_chunk, tag_set_item (empty and occupied), tag_item, "
             "build_tag, map_add / map_add(cbor_move key) / map_add on full; containers stay acyclic. States are deduplicated by the canonical form of the shadow ownership graph "
             "(kinds, capacities, ordered edges, client references; minimised over slot permutations); every transition replays its history on fresh objects and executes the real call. "
@@ -855,10 +919,10 @@ struct vf_check vf_the_check = {
                  [VC_USER + O_MOVE_PUSH] = "op_push_moved", [VC_USER + O_PUSH_FULL] = "op_push_on_full", [VC_USER + O_SET] = "op_set", [VC_USER + O_SET_OOB] = "op_set_out_of_range",
                  [VC_USER + O_REPLACE] = "op_replace", [VC_USER + O_REPLACE_OOB] = "op_replace_out_of_range", [VC_USER + O_ADD_CHUNK] = "op_add_chunk", [VC_USER + O_TAG_SET] = "op_tag_set_item",
                  [VC_USER + O_TAG_SET_OCC] = "op_tag_set_item_occupied", [VC_USER + O_MAP_ADD] = "op_map_add", [VC_USER + O_MAP_ADD_FULL] = "op_map_add_on_full",
-                 [VC_USER + O_MOVE_MAP_ADD] = "op_map_add_moved_key",
+                 [VC_USER + O_MOVE_MAP_ADD] = "op_map_add_moved_key", [VC_USER + O_LOAD_REJ] = "op_load_of_rejected_variants", [VC_USER + 27] = "rejected_or_wrapped_loads_executed",
 #if PROP == 13
                  [K13_PIPE] = "decode_describe_serialize_copy_release_pipelines", [K13_NOALLOC_TREES] = "trees_sized_and_serialized_with_zero_requests",
-                 [K13_NOALLOC_CALLS] = "calls_checked_for_zero_allocator_traffic", [K13_BLOCKS_IN_ARENA] = "block_addresses_checked_inside_arena",
+                 [K13_NOALLOC_CALLS] = "calls_checked_for_zero_allocator_traffic", [K13_BLOCKS_IN_ARENA] = "block_addresses_checked_inside_arena", [K13_FAULT_RUNS] = "load_copy_release_runs_with_one_request_refused",
 #endif
     },
     .init = init, .units = units, .unit = unit, .replay = replay, .finish = finish, .states_counter = VC_DISTINCT + 1};
